@@ -314,6 +314,8 @@ class Tap:
             k = e[0]
             if k in ("U", "D"):
                 out.append(k)
+            elif k == "q":
+                out.append(f"q{e[1]}")
             elif k == "a":
                 out += [f"a{e[1]}"] if atomic else [f"i{e[1]}", f"t{e[1]}"]  # the tap itself serialises the allocator
             elif k in ("g", "s", "f", "y", "r", "o", "u"):
@@ -607,7 +609,7 @@ def part_request_schedules(cx: Ctx):
 # ---------------------------------------------------------------------------------------------- (ii) free threads, scripted replies
 def part_scripted(cx: Ctx):
     res, rng = cx.res, cx.rng
-    t3 = 0.35
+    t3 = 1.0
     n_scen = 120 if cx.big else 12
     for sc in range(n_scen):
         rig = Rig(t3=t3)
@@ -742,8 +744,14 @@ def unsolicited_round(cx: Ctx, rig: Rig, case, base, count=3, block=0.3):
     for i, s in enumerate(systems):
         rig.feed(data_msg(s, 6, 11 + i))
         time.sleep(0.02)
-    # while the first handler is blocked nothing else may start
-    time.sleep(0.12)
+    # while the first handler is blocked nothing else may start: wait (bounded) until it runs, then give the others time to misbehave
+    limit = time.time() + 2.0
+    while time.time() < limit:
+        with rig.ev_lock:
+            if any(e[0] == "start" for e in rig.events[n0:]):
+                break
+        time.sleep(0.003)
+    time.sleep(0.15)
     with rig.ev_lock:
         during = list(rig.events[n0:])
     gate.set()
@@ -766,54 +774,113 @@ def unsolicited_round(cx: Ctx, rig: Rig, case, base, count=3, block=0.3):
     return problems, ev, want
 
 
+def partial_frame():
+    """a valid 20-byte HSMS data frame (4 length + 10 header + 6 body) to be cut somewhere"""
+    m = HsmsMessage(HsmsStreamFunctionHeader(424242, 6, 11, False, 0), b"\x01\x02\x41\x01\x21\x07")
+    return b"".join(bytes(b.encode()) for b in m.blocks)
+
+
+CUTS = [2, 4, 8, 13, 14, 17, 19]  # inside the length field, length only, inside the header, header short of one byte, header only, inside the body
+
+
+def sequential_delivery(rig: Rig, systems):
+    """feed unsolicited messages one after the other (each after the previous handler returned); -> list of problems"""
+    with rig.ev_lock:
+        n0 = len(rig.events)
+    for i, s_ in enumerate(systems):
+        rig.feed(data_msg(s_, 6, 21 + i))
+        limit = time.time() + 2.0
+        while time.time() < limit:
+            with rig.ev_lock:
+                if sum(1 for e in rig.events[n0:] if e[0] == "end") > i:
+                    break
+            time.sleep(0.003)
+    time.sleep(0.03)
+    with rig.ev_lock:
+        ev = list(rig.events[n0:])
+    want = [(s_, 6 * 256 + 21 + i) for i, s_ in enumerate(systems)]
+    starts = [(s_, t) for (k, s_, t) in ev if k == "start"]
+    if starts != want:
+        return ["messages sent on the re-established link were not handed to the application exactly once, in order"], ev, want
+    return [], ev, want
+
+
+def reconnect_scenario(cx: Ctx, cycles, cuts):
+    res = cx.res
+    rig = Rig(t3=1.0)
+    if not rig.connect():
+        res.notes.append("reconnect: could not select")
+        return
+    c0 = rig.p._system_counter
+    case = {"part": "reconnect", "cycles": cycles, "cuts": cuts}
+    frame = partial_frame()
+    all_ev = []
+    for cyc in range(cycles):
+        # some traffic, then the link goes down - possibly in the middle of an inbound frame - and comes back
+        rig.feed(data_msg(500000 + cyc, 6, 1))
+        rig.quiesce(limit=1.0)
+        cut = cuts[cyc] if cyc < len(cuts) else 0
+        if cut:
+            with rig.tap.lock:
+                rig.tap.log.append(("q", cut))
+            rig.c.on_data({"source": rig.c, "data": frame[:cut]})
+            time.sleep(0.02)
+            res.bump("link_lost_after_bytes_of_a_20_byte_frame", cut)
+        rig.disconnect()
+        time.sleep(0.02)
+        if not rig.connect():
+            res.violate("c06-reconnect-select", "endpoint could not be selected again after the link was lost" +
+                        (f" {cut} bytes into an inbound frame" if cut else "") + " and re-established (no Select.rsp)", case,
+                        "CONNECTED_SELECTED", str(rig.p.connection_state.current))
+            return
+        problems, ev, want = sequential_delivery(rig, [550000 + 10 * cyc, 550001 + 10 * cyc])
+        all_ev += ev
+        if problems:
+            res.violate("c06-reconnect-delivery", "; ".join(problems) + (f" (link lost {cut} bytes into an inbound frame)" if cut else ""),
+                        dict(case, events=ev), want, ev)
+            return
+    # grace period for threads told to stop
+    limit = time.time() + 0.6
+    while time.time() < limit and rig.tap.live_dispatchers() > 1:
+        time.sleep(0.01)
+    live = rig.tap.live_dispatchers()
+    res.bump("live_dispatcher_threads_after_cycles", f"{cycles}:{live}")
+    problems, ev, want = unsolicited_round(cx, rig, case, 600000 + 10 * cycles, count=3, block=1.5)
+    res.count(("reconnect", cycles, tuple(cuts)), sample={"part": "reconnect", "cycles": cycles, "cuts": cuts, "live_dispatchers": live, "handler_events": ev} if cycles in (0, 1) and len(res.samples) < 8 else None)
+    case = dict(case, live_dispatchers=live, events=ev)
+    if live != 1:
+        problems.insert(0, f"{live} dispatcher threads alive after {cycles} reconnect(s)")
+    if problems:
+        # the recorded finding: exactly "more than one dispatcher thread after a reconnect" and its consequences
+        klass = KNOWN_CLASS if (cycles >= 1 and live > 1) else "c06-unsolicited-order"
+        res.violate(klass, "; ".join(problems), case, {"live_dispatchers": 1, "starts": want}, {"live_dispatchers": live, "events": ev})
+    # correspondence incl. the number of threads and what is left in the receive buffer
+    toks, err = rig.tap.tokens(cx.atomic)
+    if cx.drv.available and toks is not None:
+        line, ans = model_run(cx.drv, cx.atomic, cx.patched, c0, max(rig.tap.n_callers, 1), toks)
+        res.traces_validated += 1
+        m = parse_model(ans)
+        impl_delivered = [f"{s_}:{t}" for (k, s_, t) in ev if k == "start"]
+        stale = len(rig.p._receive_buffer)
+        if m is None:
+            res.disagree("reconnect cycles vs Model.Txn", {"case": {"cycles": cycles, "cuts": cuts}, "line": line[:1500]}, ans[:300], "real run took these steps")
+        else:
+            tail = m["delivered"][-len(impl_delivered):] if impl_delivered else []
+            if tail != impl_delivered or m["live"] != str(live) or m.get("stale") != str(stale):
+                res.disagree("reconnect cycles vs Model.Txn", {"case": {"cycles": cycles, "cuts": cuts}, "line": line[:1500]},
+                             {"delivered": tail, "live": m["live"], "stale": m.get("stale")}, {"delivered": impl_delivered, "live": live, "stale": stale})
+
+
 def part_unsolicited_and_reconnect(cx: Ctx):
     res, rng = cx.res, cx.rng
     max_cycles = 5 if cx.big else 2
-    for cycles in range(0, max_cycles + 1):
-        rig = Rig(t3=1.0)
-        if not rig.connect():
-            res.notes.append("reconnect: could not select")
-            return
-        c0 = rig.p._system_counter
-        case = {"part": "reconnect", "cycles": cycles}
-        for cyc in range(cycles):
-            # some traffic, then the link goes down and comes back
-            rig.feed(data_msg(500000 + cyc, 6, 1))
-            rig.quiesce(limit=1.0)
-            rig.disconnect()
-            time.sleep(0.02)
-            if not rig.connect():
-                res.violate("c06-reconnect-select", "endpoint could not be selected again after a reconnect", case)
-                return
-        # grace period for threads told to stop
-        limit = time.time() + 0.6
-        while time.time() < limit and rig.tap.live_dispatchers() > 1:
-            time.sleep(0.01)
-        live = rig.tap.live_dispatchers()
-        res.bump("live_dispatcher_threads_after_cycles", f"{cycles}:{live}")
-        problems, ev, want = unsolicited_round(cx, rig, case, 600000 + 10 * cycles, count=3, block=1.5)
-        res.count(("reconnect", cycles), sample={"part": "reconnect", "cycles": cycles, "live_dispatchers": live, "handler_events": ev} if cycles in (0, 1) else None)
-        case = dict(case, live_dispatchers=live, events=ev)
-        if live != 1:
-            problems.insert(0, f"{live} dispatcher threads alive after {cycles} reconnect(s)")
-        if problems:
-            # the recorded finding: exactly "more than one dispatcher thread after a reconnect" and its consequences
-            klass = KNOWN_CLASS if (cycles >= 1 and live > 1) else "c06-unsolicited-order"
-            res.violate(klass, "; ".join(problems), case, {"live_dispatchers": 1, "starts": want}, {"live_dispatchers": live, "events": ev})
-        # correspondence incl. the number of threads
-        toks, err = rig.tap.tokens(cx.atomic)
-        if cx.drv.available and toks is not None:
-            line, ans = model_run(cx.drv, cx.atomic, cx.patched, c0, max(rig.tap.n_callers, 1), toks)
-            res.traces_validated += 1
-            m = parse_model(ans)
-            impl_delivered = [f"{s}:{t}" for (k, s, t) in ev if k == "start"]
-            if m is None:
-                res.disagree("reconnect cycles vs Model.Txn", {"case": {"cycles": cycles}, "line": line[:1500]}, ans[:300], "real run took these steps")
-            else:
-                tail = m["delivered"][-len(impl_delivered):] if impl_delivered else []
-                if tail != impl_delivered or m["live"] != str(live):
-                    res.disagree("reconnect cycles vs Model.Txn", {"case": {"cycles": cycles}, "line": line[:1500]},
-                                 {"delivered": tail, "live": m["live"]}, {"delivered": impl_delivered, "live": live})
+    reconnect_scenario(cx, 0, [])
+    for cut in CUTS:  # every cut position once, one reconnect
+        reconnect_scenario(cx, 1, [cut])
+    reconnect_scenario(cx, 1, [0])
+    for cycles in range(2, max_cycles + 1):
+        reconnect_scenario(cx, cycles, [rng.choice(CUTS + [0]) for _ in range(cycles)])
+    res.exhaustive_parts.append(f"link lost after {CUTS} bytes of a 20-byte inbound frame (every listed cut), then reconnect, select, two unsolicited messages")
     # plain (iii) with more messages and random handler timing
     for r in range(12 if cx.big else 2):
         rig = Rig(t3=1.0)
@@ -823,6 +890,32 @@ def part_unsolicited_and_reconnect(cx: Ctx):
         res.count(("unsolicited", r, len(want)))
         if problems:
             res.violate("c06-unsolicited-order", "; ".join(problems), {"part": "unsolicited", "events": ev}, want, ev)
+
+
+# ---------------------------------------------------------------------------------------------- static tie: the SECS-I routing branch
+def part_static_tie(cx: Ctx):
+    """the harness drives HSMS; the SECS-I endpoint shares Protocol.send_and_waitfor_response and has its own copy of the routing branch:
+    its statements must be the ones the model's `handle` step stands for"""
+    import ast
+    import inspect
+    import textwrap
+    import secsgem.secsi
+
+    def routing(fn):
+        tree = ast.parse(textwrap.dedent(inspect.getsource(fn)))
+        for node in ast.walk(tree):
+            if isinstance(node, ast.If) and ast.unparse(node.test) == "message.header.system in self._response_queues":
+                return [ast.unparse(x) for x in node.body], [ast.unparse(x) for x in node.orelse]
+        return None
+
+    want_body = ["self._response_queues[message.header.system].put_nowait(message)"]
+    for name, fn, conn in (("SecsIProtocol", secsgem.secsi.SecsIProtocol._on_connection_message_received, "source"),
+                           ("HsmsProtocol", secsgem.hsms.HsmsProtocol._on_connection_message_received, "self")):
+        got = routing(fn)
+        want = (want_body, [f"self.events.fire('message_received', {{'connection': {conn}, 'message': message}})"])
+        cx.res.count(("static-tie", name), nontrivial=False)
+        if got != want:
+            cx.res.disagree(f"{name}._on_connection_message_received routing branch vs Model.Txn handle step", name, list(want), got)
 
 
 def probe_patched() -> bool:
@@ -859,6 +952,7 @@ def main():
         return only is None or part in only
 
     try:
+        part_static_tie(cx)
         if want("counter"):
             part_counter(cx)
         if want("request-schedule"):
